@@ -846,6 +846,42 @@ func (ch *Chain) query(e M) Outcome {
 			return fail(err)
 		}
 		return Outcome{OK: true, Resp: M{"l2denom": c.DenomName(r.TokenPair.L2Denom)}}
+	case "TokenPairByL2Denom":
+		r, err := q.TokenPairByL2Denom(ctx, &ophosttypes.QueryTokenPairByL2DenomRequest{BridgeId: b(), L2Denom: ophosttypes.L2Denom(b(), c.Denom(absx.Str(e["denom"])))})
+		if err != nil {
+			return fail(err)
+		}
+		return Outcome{OK: true, Resp: M{"l1denom": c.DenomName(r.TokenPair.L1Denom)}}
+	case "TokenPairs":
+		r, err := q.TokenPairs(ctx, &ophosttypes.QueryTokenPairsRequest{BridgeId: b(), Pagination: page()})
+		if err != nil {
+			return fail(err)
+		}
+		return Outcome{OK: true, Resp: M{"n": int64(len(r.TokenPairs)), "total": int64(r.Pagination.Total)}}
+	case "Claimed":
+		w := absx.Map(e["w"])
+		leaf := M{"b": e["b"], "seq": w["seq"], "from": w["from"], "to": w["to"], "denom": w["denom"], "amt": w["amt"]}
+		r, err := q.Claimed(ctx, &ophosttypes.QueryClaimedRequest{BridgeId: b(), WithdrawalHash: c.LeafHash(leaf)})
+		if err != nil {
+			return fail(err)
+		}
+		return Outcome{OK: true, Resp: M{"claimed": r.Claimed}}
+	case "Params":
+		r, err := q.Params(ctx, &ophosttypes.QueryParamsRequest{})
+		if err != nil {
+			return fail(err)
+		}
+		fee := int64(0)
+		if len(r.Params.RegistrationFee) == 1 && r.Params.RegistrationFee[0].Denom == c.Denom(ch.Cfg.FeeDenom) {
+			if v, ok := c.UnitsAny(r.Params.RegistrationFee[0].Amount.BigInt()).(int64); ok {
+				fee = v
+			} else {
+				return Outcome{OK: true, Resp: M{"fee": c.UnitsAny(r.Params.RegistrationFee[0].Amount.BigInt())}}
+			}
+		} else if len(r.Params.RegistrationFee) != 0 {
+			return Outcome{OK: true, Resp: M{"fee": "?" + r.Params.RegistrationFee.String()}}
+		}
+		return Outcome{OK: true, Resp: M{"fee": fee}}
 	}
 	panic("unknown query " + absx.Str(e["q"]))
 }
